@@ -134,6 +134,23 @@ impl CallerInformation {
         }
     }
 
+    /// Whether the repair done on behalf of this caller has to visit every
+    /// callee, and not only the ones reached through a dirty edge.
+    ///
+    /// A backward projection propagation reaches a projection from *below*:
+    /// nothing has repaired the firewalls under the other callees of that
+    /// projection, so the dirty flags on the way to them cannot be trusted.
+    pub const fn pedantic_repair(&self) -> bool {
+        match &self.kind {
+            CallerKind::Query(q) => q.pedantic_repair(),
+            CallerKind::BackwardProjectionPropagation => true,
+
+            CallerKind::User
+            | CallerKind::Tracing
+            | CallerKind::RepairFirewall => false,
+        }
+    }
+
     pub const fn timestamp(&self) -> Timestamp { self.timestamp }
 
     pub const fn kind(&self) -> &CallerKind { &self.kind }
